@@ -255,12 +255,40 @@ def makeDetWith (keepFailMatches : Bool) (a : Automaton K P) (s : Nat) : R (Auto
       | .ok (some failState) =>
         match a.allTransitions failState, a.corderOf s, a.state failState with
         | .ok failTs, .ok cts, .ok fw =>
-          a.makeDetLoop failTs (if keepFailMatches then fw.matches_ else []) cts
+          -- guard (DESIGN §3.1): the Rust code silently assumes that the constraint children
+          -- of the state being determinised are not deterministic themselves (they have not
+          -- been normalised yet); otherwise the fallback transitions copied onto them could be
+          -- skipped there.
+          let childDet := cts.any fun t =>
+            match a.g.edge? t with
+            | some e => (match a.g.weight? e.dst with | some w => w.det | none => false)
+            | none => false
+          if childDet then .error (.guard "make_det: a constraint child is already deterministic")
+          else a.makeDetLoop failTs (if keepFailMatches then fw.matches_ else []) cts
         | .error e, _, _ => .error e
         | _, .error e, _ => .error e
         | _, _, .error e => .error e
 
 def makeDet (a : Automaton K P) (s : Nat) : R (Automaton K P) := makeDetWith true a s
+
+/-- `make_det` exactly as the Rust code runs it, i.e. *without* the model guard on
+deterministic constraint children (the builder theorems are about the guarded `makeDet`; the
+two agree whenever the guarded one succeeds). -/
+def makeDetL (a : Automaton K P) (s : Nat) : R (Automaton K P) :=
+  match a.setDeterministic s with
+  | .error e => .error e
+  | .ok (a, wasDet) =>
+    if wasDet then .ok a
+    else
+      match a.failNextState s with
+      | .error e => .error e
+      | .ok none => .ok a
+      | .ok (some failState) =>
+        match a.allTransitions failState, a.corderOf s, a.state failState with
+        | .ok failTs, .ok cts, .ok fw => a.makeDetLoop failTs fw.matches_ cts
+        | .error e, _, _ => .error e
+        | _, .error e, _ => .error e
+        | _, _, .error e => .error e
 
 /-! ### `try_merge_new_nodes` -/
 
@@ -318,6 +346,7 @@ def doMerge (a : Automaton K P) (node : Nat) (nodes : List Nat) : R (Automaton K
         if !same.all id then .error (.guard "c4: merge set member with a different state tuple")
         else if nodes.any (fun x => nodes.any fun y => x ≠ y ∧ a.pathExists x y) then
           .error (.guard "c4: path between merged states")
+        else if nodes.contains a.root then .error (.guard "c4: the root is in a merge set")
         else a.mergeLoop first rest
 
 def mergesLogged (a : Automaton K P) : List Ev → R (Automaton K P × List Ev)
@@ -369,6 +398,50 @@ def mainLoop (toTree : List (Cons K P) → Option (CTree (Cons K P))) (fuel : Na
     match iteration toTree fuel a s evs with
     | .error e => .error e
     | .ok (a, evs) => mainLoop toTree fuel n a evs
+  | _, _, _ :: _ => .error (.guard "expected a Topo event")
+
+/-! ### lenient variants (no `make_det` guard): what the Rust code does, used for the exact replay -/
+
+/-- `iteration` without the `make_det` guard. -/
+def iterationL (toTree : List (Cons K P) → Option (CTree (Cons K P))) (fuel : Nat)
+    (a : Automaton K P) (s : Nat) (evs : List Ev) : R (Automaton K P × List Ev) :=
+  if !a.g.containsNode s then .error (.guard "c1: emitted state does not exist") else
+  match a.makeConstraintsUnique s evs with
+  | .error e => .error e
+  | .ok (a, evs) =>
+    match insertConstraintTree toTree a s fuel with
+    | .error e => .error e
+    | .ok (a, treeDet) =>
+      match a.makeConstraintsUnique s evs with
+      | .error e => .error e
+      | .ok (a, evs) =>
+        let afterDet : R (Automaton K P × List Ev) :=
+          if treeDet then
+            match evs with
+            | .detAsk s' :: .detYes s'' :: evs' =>
+              if s' = s ∧ s'' = s then (a.makeDetL s).map (·, evs')
+              else .error (.guard "c5: DetAsk/DetYes for another state")
+            | .detAsk s' :: evs' =>
+              if s' = s then .ok (a, evs') else .error (.guard "c5: DetAsk for another state")
+            | _ => .error (.guard "c5: missing DetAsk event")
+          else .ok (a, evs)
+        match afterDet with
+        | .error e => .error e
+        | .ok (a, evs) =>
+          match a.mergesLogged evs with
+          | .error e => .error e
+          | .ok (a, .iterEnd s' :: evs) =>
+            if s' = s then .ok (a, evs) else .error (.guard "IterEnd for another state")
+          | .ok _ => .error (.guard "missing IterEnd event")
+
+def mainLoopL (toTree : List (Cons K P) → Option (CTree (Cons K P))) (fuel : Nat) :
+    Nat → Automaton K P → List Ev → R (Automaton K P)
+  | _, a, [] => .ok a
+  | 0, _, _ :: _ => .error (.fuel "main loop")
+  | n + 1, a, .topo s :: evs =>
+    match iterationL toTree fuel a s evs with
+    | .error e => .error e
+    | .ok (a, evs) => mainLoopL toTree fuel n a evs
   | _, _, _ :: _ => .error (.guard "expected a Topo event")
 
 /-! ### `populate_scopes` -/
@@ -459,6 +532,12 @@ def finish (toTree : List (Cons K P) → Option (CTree (Cons K P))) (req : K →
   | .error e => .error e
   | .ok a => populateScopes req fuel a
 
+def finishL (toTree : List (Cons K P) → Option (CTree (Cons K P))) (req : K → List K)
+    (fuel : Nat) (a : Automaton K P) (evs : List Ev) : R (Automaton K P) :=
+  match mainLoopL toTree fuel evs.length a evs with
+  | .error e => .error e
+  | .ok a => populateScopes req fuel a
+
 /-- `AutomatonBuilder::from_constraints`-style construction used by `ManyMatcher`: patterns are
 `(id, constraints, extra required keys)`. -/
 def addPatterns (req : K → List K) (fuel : Nat) :
@@ -475,6 +554,14 @@ def build (toTree : List (Cons K P) → Option (CTree (Cons K P))) (req : K → 
   match addPatterns req fuel new patterns with
   | .error e => .error e
   | .ok a => finish toTree req fuel a evs
+
+/-- The build exactly as the Rust code runs it (no `make_det` guard). -/
+def buildL (toTree : List (Cons K P) → Option (CTree (Cons K P))) (req : K → List K)
+    (fuel : Nat) (patterns : List (Nat × List (Cons K P) × List K)) (evs : List Ev) :
+    R (Automaton K P) :=
+  match addPatterns req fuel new patterns with
+  | .error e => .error e
+  | .ok a => finishL toTree req fuel a evs
 
 end Automaton
 end Pm
